@@ -19,7 +19,7 @@ class C04(Prop):
     imports = "From Tola Require Import Py.Base Model.Fragment Model.Fasta Model.Stream Corr.Fasta."
     show_fn = "show"
     design_ref = "6/C04"
-    required_theorems = ['C04_index_spec', 'C04_random_access', 'C04_duplicate_names_rejected', 'C04_empty_file_rejected', 'C04_stream_back', 'C04_legacy_refuted']
+    required_theorems = ['C04_index_spec', 'C04_random_access', 'C04_duplicate_names_rejected', 'C04_empty_file_rejected', 'C04_stream_back', 'C04_rendered_accessible', 'C04_stream_back_instance', 'C04_legacy_refuted']
 
     def rule(self):
         return (
